@@ -664,6 +664,9 @@ static ares_status_t ares_dns_write_rr_opt(ares_buf_t          *buf,
     }
 
     /* BE16 length */
+    if (val_len > 65535) {
+      return ARES_EFORMERR;
+    }
     status = ares_buf_append_be16(buf, (unsigned short)(val_len & 0xFFFF));
     if (status != ARES_SUCCESS) {
       return status; /* LCOV_EXCL_LINE: OutOfMemory */
@@ -753,6 +756,9 @@ static ares_status_t ares_dns_write_rr_svcb(ares_buf_t          *buf,
     }
 
     /* BE16 length */
+    if (val_len > 65535) {
+      return ARES_EFORMERR;
+    }
     status = ares_buf_append_be16(buf, (unsigned short)(val_len & 0xFFFF));
     if (status != ARES_SUCCESS) {
       return status; /* LCOV_EXCL_LINE: OutOfMemory */
@@ -804,6 +810,9 @@ static ares_status_t ares_dns_write_rr_https(ares_buf_t          *buf,
     }
 
     /* BE16 length */
+    if (val_len > 65535) {
+      return ARES_EFORMERR;
+    }
     status = ares_buf_append_be16(buf, (unsigned short)(val_len & 0xFFFF));
     if (status != ARES_SUCCESS) {
       return status; /* LCOV_EXCL_LINE: OutOfMemory */
@@ -1070,6 +1079,10 @@ static ares_status_t ares_dns_write_rr(const ares_dns_record_t *dnsrec,
      * position */
     end_length = ares_buf_len(buf);
     rdlength   = end_length - pos_len - 2;
+    if (rdlength > 65535) {
+      return ARES_EFORMERR;
+    }
+
     status = ares_buf_set_length(buf, pos_len);
     if (status != ARES_SUCCESS) {
       return status;
@@ -1120,6 +1133,11 @@ static ares_status_t ares_dns_write_buf_int(const ares_dns_record_t *dnsrec,
   status = ares_dns_write_rr(dnsrec, &namelist, ARES_SECTION_ADDITIONAL, buf);
   if (status != ARES_SUCCESS) {
     goto done;
+  }
+
+  /* A DNS message can't be larger than 64k, not even over TCP */
+  if (ares_buf_len(buf) > 65535) {
+    status = ARES_EBADQUERY;
   }
 
 done:
